@@ -149,6 +149,30 @@ class RaiseOnStop:
             raise HarnessError(self.what + ' callback failed')
 
 
+class InsertCb:
+    """Workload callback (finish callback): every k-th finished Batch gets one more, hand-made part - the
+    documentation allows changing Batch.parts directly; the part is made by the user, not by a Source, so nobody
+    has initialised it."""
+
+    def __init__(self, log, dev_id, every):
+        self.log, self.dev_id, self.every, self.n = log, dev_id, every, 0
+
+    def __call__(self, dev, part):
+        if instrument.PROBING or getattr(part, 'parts', None) is None:
+            return
+        self.n += 1
+        if self.n % self.every:
+            return
+        p = Part(name=f'{self.dev_id}_insert_{self.n}', value=0.5, quality=1)
+        p.huid = f'{self.dev_id}:ins{self.n}'
+        p.hseq = 0
+        p.hsrc = self.dev_id
+        p.h_initial_value = 0.5
+        part.parts.append(p)
+        self.log.leaves.append(p)
+        self.log.inserted = getattr(self.log, 'inserted', 0) + 1
+
+
 class RestoredCb:
     def __init__(self, log, dev_id, idx):
         self.log, self.dev_id, self.idx = log, dev_id, idx
@@ -285,6 +309,23 @@ class ScriptAction:
                     out = 'accepted'
                 except (TypeError, AssertionError, RuntimeError) as e:
                     out = 'refused:' + type(e).__name__
+            elif kind == 'bad_history_removal':
+                # a request the library must refuse: removing an entry the batch's own history does not have
+                n = 0
+                for d in w.devs.values():
+                    tops = []
+                    o = getattr(d, '_output', None)
+                    if o is not None:
+                        tops.append(o)
+                    tops.extend(x[1] for x in getattr(d, '_buffer', []) or [])
+                    for t in tops:
+                        if getattr(t, 'parts', None) is not None and hasattr(t, 'routing_history'):
+                            try:
+                                t.remove_from_routing_history(-(len(t._routing_history) + 1))
+                                n += 1000
+                            except IndexError:
+                                n += 1
+                out = n
             elif kind == 'rewire_remove':
                 # the documented way to change connections: read the list, edit it, set it again
                 ups = dev.upstream
@@ -563,6 +604,8 @@ def build(spec, bus=None, script=True, system=None, known=None):
                 d.add_restored_callback(RestoredCb(log, i, n))
             if it.get('refuse'):
                 d.add_shutdown_callback(RefuseCb(log, i, it['refuse']))
+            if it.get('insert_part'):
+                d.add_finish_processing_callback(InsertCb(log, i, it['insert_part']))
             if it.get('raise_at'):
                 d.add_finish_processing_callback(RaiseCb(it['raise_at']))
             if it.get('raise_shutdown'):
